@@ -468,9 +468,11 @@ def runSteps (env : Env) (c : Client) : List Step → Client
   | [] => c
   | s :: rest => runSteps env (applyStep env c s) rest
 
-/-! ### `VerifyPacketCommitment` : `produceVerificationArgs`, `verifyDelayPeriodPassed`, membership -/
-def verifyMembership (env : Env) (c : Client) (h : Height) (proof : Option Bytes) (path value : Bytes) (now : Int) :
-    Outcome Unit := do
+/-! ### `VerifyPacketCommitment`, `VerifyPacketAcknowledgement` : `produceVerificationArgs`, `verifyDelayPeriodPassed`, membership -/
+
+/-- `produceVerificationArgs`: proof height not above the latest height, proof present and decodable, consensus state
+    stored at the proof height -/
+def produceVerificationArgs (env : Env) (c : Client) (h : Height) (proof : Option Bytes) : Outcome (Bytes × ConsState) := do
   require (!decide (c.cs.latest < h)) "height-above-latest"
   match proof with
   | none => .err "proof-nil"
@@ -478,13 +480,39 @@ def verifyMembership (env : Env) (c : Client) (h : Height) (proof : Option Bytes
     require (env.proofDecodes pf) "proof-decode"
     match lookup h c.st.cons with
     | none => .err "no-consensus-state"
-    | some k =>
-      match lookup h c.st.ptime with
-      | none => .err "no-processed-time"
-      | some pt => do
-        -- uint64 arithmetic: validTime := processedTime + delayPeriod; an overflowing sum is "not passed"
-        require (decide (pt + c.cs.timeDelay < two64N)) "delay-overflow"
-        require (!decide (pt + c.cs.timeDelay > toU64 now)) "delay-not-passed"
-        require (env.membership k.root pf path value) "membership"
+    | some k => pure (pf, k)
+
+/-- `verifyDelayPeriodPassed` -/
+def verifyDelayPeriodPassed (c : Client) (h : Height) (delay : Nat) (now : Int) : Outcome Unit :=
+  match lookup h c.st.ptime with
+  | none => .err "no-processed-time"
+  | some pt => do
+    -- uint64 arithmetic: validTime := processedTime + delayPeriod; an overflowing sum is "not passed"
+    require (decide (pt + delay < two64N)) "delay-overflow"
+    require (!decide (pt + delay > toU64 now)) "delay-not-passed"
+
+/-- the guards shared by every `Verify*` entry point: `produceVerificationArgs`, then `verifyDelayPeriodPassed` with the
+    client's `GetDelayTime()` (= `TimeDelay`) -/
+def verifyArgs (env : Env) (c : Client) (h : Height) (proof : Option Bytes) (now : Int) : Outcome (Bytes × ConsState) := do
+  let r ← produceVerificationArgs env c h proof
+  verifyDelayPeriodPassed c h c.cs.timeDelay now
+  pure r
+
+/-- `host.PacketCommitmentPath` / `host.PacketAcknowledgementPath` under the client's prefix, as opaque tagged identities
+    of (source chain, destination chain, sequence) -/
+def commitmentPath (id : Bytes) : Bytes := 0x63 :: id
+def acknowledgementPath (id : Bytes) : Bytes := 0x61 :: id
+
+/-- `ClientState.VerifyPacketCommitment` -/
+def verifyPacketCommitment (env : Env) (c : Client) (h : Height) (proof : Option Bytes) (id value : Bytes) (now : Int) :
+    Outcome Unit := do
+  let (pf, k) ← verifyArgs env c h proof now
+  require (env.membership k.root pf (commitmentPath id) value) "membership"
+
+/-- `ClientState.VerifyPacketAcknowledgement` -/
+def verifyPacketAcknowledgement (env : Env) (c : Client) (h : Height) (proof : Option Bytes) (id value : Bytes) (now : Int) :
+    Outcome Unit := do
+  let (pf, k) ← verifyArgs env c h proof now
+  require (env.membership k.root pf (acknowledgementPath id) value) "membership"
 
 end TM.TmClient
